@@ -355,4 +355,11 @@ theorem c14_raw_layout_parser_follows_source (bs : Bytes) :
     ((Generated.rawLayoutParse bs).map' (·.1)).Same ((rawLayoutDecode bs).map' (List.map RawProp.toSrcRaw)) :=
   gen_rawLayoutParse bs
 
+/-- **The reader's decoding of an index header follows the source**: `IndexHeader::parse` translated on every run
+    is `IndexInfo.decode` on every byte string. -/
+theorem c14_index_header_parser_follows_source (bs : Bytes) :
+    (Generated.indexHeaderParse bs).map' (fun r => (⟨r.1.1, r.1.2.1, r.1.2.2.1, r.1.2.2.2.1, r.1.2.2.2.2.1, r.1.2.2.2.2.2⟩ : IndexInfo)) =
+      IndexInfo.decode bs :=
+  gen_indexHeaderParse bs
+
 end Jubako
